@@ -1823,6 +1823,10 @@ def propagate_module_constants(prog: Program) -> List[str]:
                     defs.setdefault(st.targets[0].id, []).append((m, st, v))
                 elif isinstance(v, ast.Constant) and isinstance(v.value, (int, float, str, bool)):
                     defs.setdefault(st.targets[0].id, []).append((m, st, v))
+                elif isinstance(v, ast.Tuple) and v.elts and all(
+                        isinstance(e, ast.Constant) or (isinstance(e, ast.Attribute) and isinstance(e.value, ast.Name) and e.value.id in ("np", "numpy", "math")) for e in v.elts):
+                    # a tuple of constants / library functions (``_CHECKS = (np.isscalar, np.isfinite)``): immutable as well
+                    defs.setdefault(st.targets[0].id, []).append((m, st, v))
     out = []
     for name, ds in defs.items():
         if len(ds) != 1 or stores.get(name) != 1:
